@@ -218,10 +218,10 @@ impl EventRegister {
     }
 
     /// Return the enabled operation bits summary.
-    /// Returns true if any enabled condition bit is set, false otherwise.
+    /// Returns true if any enabled event bit is set, false otherwise.
     ///
     pub fn get_summary(&self) -> bool {
-        (self.condition & self.enable) & 0x7fffu16 != 0u16
+        (self.event & self.enable) & 0x7fffu16 != 0u16
     }
 
     /// Get the state of relevant bit in status register. Returns true if bit is set, false otherwise.
